@@ -219,7 +219,7 @@ class Gen:
         if kind == 'raise_':
             return [['raise', r.choice([0, 0, 1, 2, 2, 3, 4])]]
         if kind == 'try_':
-            body = self.block(self.body_len(), self.sub(ctx))
+            body = self.block(self.body_len(), self.sub(ctx, intry=True))
             hs = []
             for _ in range(r.choice([1, 1, 2])):
                 p = r.choice([['user', 0], ['user', 1], ['user', 2], ['exception'], ['concurrent'],
@@ -237,6 +237,8 @@ class Gen:
                 elif c < 0.7 and self.tasks:
                     fin.append(['cancel', r.choice(self.tasks), r.randrange(1, 9)])
                 else:
+                    # (while a coroutine is being closed the scenario language's `try` handles nothing -- see dsl.py --
+                    # so an exception raised by cleanup code during close() is never swallowed)
                     fin.append(['raise', r.choice([0, 2])])
             return [['try', body, hs, fin], ['log', self.k()]]
         if kind == 'try_stream':
